@@ -451,13 +451,15 @@ def coq_case(c, o):
             ops.append("OLockAndDelegate %s %s %s %s" % (zlit(op["o"]), zlit(op["d"]), zlit(int(op["amt"])), zlit(op["v"])))
         elif k == "cldel":
             # the shares minted by the concentrated pool are an environment input read off the observation; a refused message
-            # is reproduced with a huge dummy amount (every refusal of the delegation part is independent of the amount then)
+            # is reproduced with a dummy amount (huge: the refusals other than "zero osmo equivalent" do not depend on it)
             if cur["code"] == 0:
                 lk = [l for l in cur["locks"] if l[0] == cur["newid"]]
                 if len(lk) != 1:
                     return None
                 amt_ = lk[0][3]
-            elif cur["code"] in (3, 5, 6, 7, 8):
+            elif cur["code"] == 7:
+                amt_ = 1             # the value is monotone in the amount: zero for the real amount => zero for 1
+            elif cur["code"] in (3, 5, 6, 8):
                 amt_ = 10 ** 30
             else:
                 return None
@@ -667,7 +669,7 @@ def nontrivial(c, o):
 
 def run_cases(cases, model_ok, out, tag, hist=None):
     binary = common.go_build("c11drv", test=True)
-    obs = common.run_driver(binary, cases, args="-test.run ^TestDriver$", shards=8 if len(cases) >= 16 else 1)
+    obs = common.run_driver(binary, cases, args="-test.run ^TestDriver$", shards=(14 if len(cases) >= 200 else 8) if len(cases) >= 16 else 1)
     good = []
     for c, o in zip(cases, obs):
         out.evaluations += 1
@@ -720,7 +722,7 @@ def run_cases(cases, model_ok, out, tag, hist=None):
 def correspond(tier, seed, model_ok):
     out = Outcome()
     r = Rng(seed)
-    n = 56 if tier == "quick" else 1500
+    n = 56 if tier == "quick" else 700
     cases = [witness_f1()]
     cases += [gen_case(r.fork(i), tier) for i in range(n)]
     corpus = common.load_corpus(PROP)
